@@ -446,3 +446,219 @@ def c17_5(I, shape):
     I.check(conn.closed, "connection-closed")
     I.check(sock.closed, "raw-socket-closed")
     I.check(conn.session.resumable is False, "session-not-resumable")
+
+
+# ---------------------------------------------------------------------------
+# C17.6  transport fault at every send / recv index of whole handshakes
+#        (two live endpoints)
+# ---------------------------------------------------------------------------
+from models import pair as P
+from tlslite.errors import BaseTLSException
+
+PAIR_RND17 = P.RandomSource(None)
+
+
+def _pair_patches17(shape):
+    P.ModelKEX.rnd = PAIR_RND17
+    return (P.pair_proxies(), P.pair12_stubs(PAIR_RND17))
+
+FLAVOURS6 = {
+    "tls13": dict(v="13"),
+    "tls13-clientauth": dict(v="13", cauth=True),
+    "tls12-ecdhe-gcm": dict(v=(3, 3), kx="ecdhe_rsa", c="aes128gcm"),
+    "tls12-rsa-cbc": dict(v=(3, 3), kx="rsa", c="aes128"),
+    "tls12-dhe-cbc": dict(v=(3, 3), kx="dhe_rsa", c="aes128"),
+    "tls12-clientauth": dict(v=(3, 3), kx="ecdhe_rsa", c="aes128gcm",
+                             cauth=True),
+    "tls11-ecdhe-cbc": dict(v=(3, 2), kx="ecdhe_rsa", c="aes128"),
+    "tls10-ecdhe-cbc": dict(v=(3, 1), kx="ecdhe_rsa", c="aes128"),
+}
+
+
+def _shapes_c17_6(tier):
+    out = []
+    flav = ["tls13", "tls12-ecdhe-gcm", "tls12-rsa-cbc", "tls10-ecdhe-cbc"]
+    modes = [("send", "reset"), ("recv", "reset"), ("recv", "eof")]
+    ks = range(0, 6)
+    if tier != "quick":
+        # the client-authentication flavours are left out: with symbolic
+        # randoms this scenario does not complete even without a fault (a
+        # harness limitation, not a library result), so nothing is claimed
+        # for them
+        flav = [f for f in FLAVOURS6 if "clientauth" not in f]
+        modes = [("send", "reset"), ("send", "epipe"), ("recv", "reset"),
+                 ("recv", "eof")]
+        ks = range(0, 10)
+    for f in flav:
+        for who in ("c", "s"):
+            for op, mode in modes:
+                for k in ks:
+                    out.append(dict(flavour=f, who=who, op=op, mode=mode,
+                                    k=k))
+    return out
+
+
+@obligation("C17.6", _shapes_c17_6,
+            functions=["tlslite.tlsconnection:TLSConnection."
+                       "_handshakeWrapperAsync",
+                       "tlslite.tlsconnection:TLSConnection."
+                       "_handshakeClientAsyncHelper",
+                       "tlslite.tlsconnection:TLSConnection."
+                       "_handshakeServerAsyncHelper",
+                       "tlslite.tlsconnection:TLSConnection."
+                       "_clientTLS13Handshake",
+                       "tlslite.tlsconnection:TLSConnection."
+                       "_serverTLS13Handshake",
+                       "tlslite.tlsrecordlayer:TLSRecordLayer."
+                       "_sendMsgThroughSocket",
+                       "tlslite.tlsrecordlayer:TLSRecordLayer._getMsg",
+                       "tlslite.tlsrecordlayer:TLSRecordLayer."
+                       "_getNextRecordFromSocket",
+                       "tlslite.tlsrecordlayer:TLSRecordLayer._shutdown",
+                       "tlslite.tlsrecordlayer:TLSRecordLayer.readAsync",
+                       "tlslite.tlsrecordlayer:TLSRecordLayer.writeAsync",
+                       "tlslite.recordlayer:RecordSocket.recv",
+                       "tlslite.recordlayer:RecordSocket.send"],
+            assumes=P.PAIR_ASSUMES + [
+                "two live endpoints run a whole handshake of the shape's "
+                "flavour; the k-th (0-based) send call, or recv call with "
+                "data waiting, of one side fails: ECONNRESET / EPIPE raised, "
+                "or recv returns EOF; afterwards that side's transport is "
+                "dead (buffered input still readable, then the same errno) "
+                "and the peer reads EOF once its inbox is drained",
+                "if index k lies beyond the handshake, the fault is carried "
+                "into a 5-byte application-data exchange in both directions",
+                "handshake randoms, key shares and nonces are symbolic; hashes, MACs, PRF/HKDF, "
+                "(EC)DH, signatures, AEAD/CBC are the uninterpreted models of "
+                "the pair fixture"],
+            patches=_pair_patches17, max_paths=200, timeout=(600, 1800))
+def c17_6(I, shape):
+    """a transport fault at any send/recv index of a handshake (or of the
+    data exchange that follows) surfaces as socket.error /
+    TLSAbruptCloseError at the side it hits, leaves that side closed with no
+    resumable session and no completed handshake; the peer never crashes and
+    is never left with a resumable session from an uncompleted handshake"""
+    fl = FLAVOURS6[shape["flavour"]]
+    kw = dict(server_cred="rsa")
+    if fl["v"] == "13":
+        cset, sset = P.settings13(), P.settings13()
+    else:
+        cset = P.settings12(fl["v"], fl["kx"], fl["c"], "sha")
+        sset = P.settings12(fl["v"], fl["kx"], fl["c"], "sha")
+    if fl.get("cauth"):
+        kw.update(client_cred="rsa", req_cert=True)
+    sc = P.Scenario(I, PAIR_RND17, cset, sset, **kw)
+    plan = P.FaultPlan(shape["who"], shape["op"], shape["k"], shape["mode"])
+    sc.run(mitm=plan)
+    vep, pep = (sc.cep, sc.sep) if shape["who"] == "c" else (sc.sep, sc.cep)
+    v, p = vep.conn, pep.conn
+
+    def transport_error(e):
+        return isinstance(e, (socket.error, TLSAbruptCloseError)) and \
+            not isinstance(e, TLSAlert)
+
+    def not_resumable(conn):
+        return conn.session is None or conn.session.resumable is False \
+            or not conn.session.valid()
+
+    for ep, name in ((vep, "faulted-side"), (pep, "peer")):
+        I.check(ep.crash is None, "no-raw-exception-" + name,
+                detail=lambda ep=ep: dict(tb=ep.crash))
+    if plan.fired:
+        I.cover("fault-during-handshake")
+        I.check(vep.done, "faulted-handshake-call-returns",
+                detail=lambda: dict(blocked=vep.blocked))
+        if not vep.done:
+            return
+        I.check(vep.error is not None, "no-handshake-reported-complete",
+                detail=lambda: dict(k=shape["k"]))
+        I.check(vep.error is None or transport_error(vep.error),
+                "fault-surfaces-as-socket-or-abrupt-close-error",
+                detail=lambda: dict(err=repr(vep.error)))
+        if shape["mode"] == "eof":
+            I.check(vep.error is None or
+                    isinstance(vep.error, TLSAbruptCloseError),
+                    "eof-surfaces-as-abrupt-close",
+                    detail=lambda: dict(err=repr(vep.error)))
+        elif isinstance(vep.error, socket.error) and \
+                not isinstance(vep.error, BaseTLSException):
+            I.check(vep.error.args[0] == plan.fault["errno"],
+                    "errno-unchanged", detail=lambda: dict(e=repr(vep.error)))
+        I.check(v.closed, "faulted-side-closed")
+        I.check(not_resumable(v), "faulted-side-session-not-resumable")
+        I.check(v._recordLayer._writeState.encContext is None and
+                v._recordLayer._readState.encContext is None,
+                "faulted-side-record-state-cleared")
+        # the peer either had everything it needed (completed) or fails
+        # cleanly on the EOF that follows
+        I.check(pep.done, "peer-call-returns",
+                detail=lambda: dict(blocked=pep.blocked))
+        if pep.done and pep.error is not None:
+            I.check(p.closed and not_resumable(p),
+                    "peer-closed-and-not-resumable-after-failed-handshake",
+                    detail=lambda: dict(err=repr(pep.error)))
+            I.check(isinstance(pep.error, (socket.error, TLSAbruptCloseError,
+                                           TLSLocalAlert, TLSRemoteAlert)),
+                    "peer-fails-with-a-tls-or-socket-error",
+                    detail=lambda: dict(err=repr(pep.error)))
+        return
+    # the fault index lies beyond the handshake
+    I.check(sc.both_completed(), "handshake-completes-without-fault",
+            detail=lambda: dict(c=repr(sc.cep.error), s=repr(sc.sep.error)))
+    if not sc.both_completed():
+        return
+    data = I.bytes(5, "data")
+    errs = {}
+
+    def drive(conn, gen, tag):
+        try:
+            for r in gen:
+                if isinstance(r, int) and not isinstance(r, bool) and \
+                        r in (0, 1):
+                    return "blocked"
+                return r
+        except (PathAbort, Unsupported):
+            raise
+        except (BaseTLSException, socket.error) as e:
+            errs[tag] = e
+            return e
+        except Exception as e:
+            I.fail("data exchange raised %s" % type(e).__name__,
+                   detail=repr(e)[:200])
+            raise PathAbort()
+    for rnd in range(3):
+        if plan.fired:
+            break
+        r = drive(v, v.writeAsync(newbuf(list(data))), "v-write")
+        if plan.fired:
+            break
+        r = drive(p, p.readAsync(max=5, min=5), "p-read")
+        if not plan.fired:
+            I.check(not isinstance(r, Exception) and r != "blocked" and
+                    bool(seq_eq(list(r), list(data))),
+                    "data-delivered-before-the-fault")
+        drive(p, p.writeAsync(newbuf(list(data))), "p-write")
+        r = drive(v, v.readAsync(max=5, min=5), "v-read")
+        if not plan.fired:
+            I.check(not isinstance(r, Exception) and r != "blocked" and
+                    bool(seq_eq(list(r), list(data))),
+                    "data-delivered-before-the-fault")
+    if not plan.fired:
+        I.cover("fault-index-never-reached")
+        return
+    I.cover("fault-during-data-exchange")
+    tag = "v-write" if shape["op"] == "send" else "v-read"
+    e = errs.get(tag)
+    I.check(e is not None and transport_error(e),
+            "data-phase-fault-surfaces-as-socket-or-abrupt-close-error",
+            detail=lambda: dict(errs={k: repr(x) for k, x in errs.items()}))
+    if shape["mode"] == "eof":
+        I.check(isinstance(e, TLSAbruptCloseError),
+                "truncation-is-not-mistaken-for-end-of-data",
+                detail=lambda: dict(e=repr(e)))
+        I.check(not_resumable(v), "abrupt-close-session-not-resumable")
+    I.check(v.closed, "faulted-side-closed-after-data-phase-fault")
+    # later calls keep failing rather than pretending the stream ended
+    r2 = drive(v, v.writeAsync(newbuf(list(data))), "v-write-2")
+    I.check(isinstance(r2, Exception), "write-after-failure-raises",
+            detail=lambda: dict(r=repr(r2)))
